@@ -519,6 +519,29 @@ namespace {
     uint64_t points_now() noexcept { return S.st.points; }
     SchedStats const& session_stats() { return S.st; }
 
+    namespace {
+        thread_local bool t_collect = false;
+        uint64_t g_collects = 0;
+    }
+    void scan_collect_begin() noexcept
+    {
+        Thr* me = t_self;
+        if ( me && S.active && S.p.scan_atomic && !t_collect ) {
+            ++me->suppress;
+            t_collect = true;
+            ++g_collects;
+        }
+    }
+    void scan_collect_end() noexcept
+    {
+        if ( t_collect ) {
+            t_collect = false;
+            if ( t_self )
+                --t_self->suppress;
+        }
+    }
+    uint64_t scan_collect_count() noexcept { return g_collects; }
+
     no_sched::no_sched() noexcept { if ( t_self ) ++t_self->suppress; }
     no_sched::~no_sched() noexcept { if ( t_self ) --t_self->suppress; }
     gap_freeze::gap_freeze() noexcept { if ( t_self ) ++t_self->freeze; }
@@ -536,6 +559,7 @@ namespace {
                 delete t;
         S.thr.clear();
         S.p = p;
+        g_collects = 0;
         S.pre_idx = 0;
         S.until_pre = -1;
         S.consecutive = 0;
